@@ -544,7 +544,7 @@ def obligations(tier):
     if not q:
         for root in range(2):
             for c0 in RT_SUBSET:
-                for c1 in range(NSTEPS):
+                for c1 in RT_SUBSET:          # sized: one step of every kind in the first two positions, every step in the third
                     obs.append(Ob(roundtrip3, fixed={'root': root, 'c0': c0, 'c1': c1, 'leaf': 7}, pre='0 <= c2 < %d' % NSTEPS,
                                   name='roundtrip3_r%d_%d_%d' % (root, c0, c1)))
     for k0 in range(len(EQ_LITS)):
